@@ -1003,3 +1003,74 @@ func famNotifyShort(t *testing.T, seed int64, steps int) *Cluster {
 	c.converge(500 * time.Millisecond)
 	return c
 }
+
+// famTransferStuck: the target T of an earlier leadership transfer campaigned on TimeoutNow without being heard (its
+// term is ahead). T is cut off; a second transfer to T times out while its worker waits for T's replication routine,
+// which sleeps in a back-off. When T is reachable again the routine learns T's higher term and goes away for good
+// without serving the worker. The old leader later leads again: it must accept writes (C12), and no library
+// goroutine may be left blocked for ever (C17).
+func famTransferStuck(t *testing.T, seed int64, steps int) *Cluster {
+	opt := DefaultOptions(seed)
+	opt.Family = "transferstuck"
+	c := NewCluster(t, opt)
+	c.Bootstrap()
+	c.StartAll()
+	L := c.WaitLeader(2 * time.Second)
+	if L == "" {
+		return c
+	}
+	var others []string
+	for _, id := range opt.Servers {
+		if id != L {
+			others = append(others, id)
+		}
+	}
+	T := others[int(seed)%2]
+	c.Apply(L, 0)
+	c.Settle("client")
+	c.Drive(100*time.Millisecond, nil, nil)
+	if c.Leader() != L {
+		c.converge(500 * time.Millisecond)
+		return c
+	}
+	// first transfer: T gets TimeoutNow and campaigns, but nothing T sends is heard
+	muteT := func(r *Rpc) bool { return r.Src != T }
+	c.Transfer(L, T)
+	c.Settle("client")
+	c.Drive(3*opt.Election, muteT, nil)
+	c.isolate(T)
+	c.dropPendingFrom(T)
+	if c.Leader() != L || c.byID[T].Raft.CurrentTerm() <= c.byID[L].Raft.CurrentTerm() {
+		c.healAll()
+		c.converge(500 * time.Millisecond)
+		return c
+	}
+	// T is unreachable: its replication routine backs off; a write makes T lag
+	c.Apply(L, 0)
+	c.Settle("client")
+	c.Drive(time.Duration(150+50*(seed%6))*time.Millisecond, nil, nil)
+	// second transfer to T: times out
+	c.Transfer(L, T)
+	c.Settle("client")
+	c.Drive(3*opt.Election, nil, nil)
+	// T is back: the routine wakes, is told T's term and stops; L steps down
+	c.healAll()
+	c.Drive(1500*time.Millisecond, nil, nil)
+	// L leads again
+	for i := 0; i < 4 && c.Leader() != L; i++ {
+		if x := c.Leader(); x != "" {
+			c.Transfer(x, L)
+			c.Settle("client")
+		}
+		c.Drive(8*opt.Election, nil, func() bool { return c.Leader() == L })
+	}
+	if c.Leader() == L {
+		for i := 0; i < 2; i++ {
+			c.Apply(L, 0)
+			c.Settle("client")
+			c.Drive(60*time.Millisecond, nil, nil)
+		}
+	}
+	c.converge(500 * time.Millisecond)
+	return c
+}
